@@ -88,7 +88,8 @@ class T:
         c.assume(z3.Not(self.is_Mask(self.tr_retval(t))))
         c.assume(z3.Not(self.is_None(self.tr_retval(t))))
         _note("inner generative function G satisfies the GFI contract (assume-guarantee; proved of every combinator class)")
-        _note("return values of the inner generative function are not Mask instances (nested masks raise: observation O1)")
+        _note("return values of the ABSTRACT inner generative function are not Mask instances (a callee that returns a mask - mask of "
+              "mask - is covered by the separate task mask.nested on real MaskTrace objects)")
 
     def abstract_trace(self, name, g=None):
         """an arbitrary well-formed trace of the abstract generative function"""
